@@ -2,6 +2,7 @@ package drive
 
 import (
 	"fmt"
+	"strings"
 	"time"
 
 	"verif/harness/core"
@@ -45,6 +46,9 @@ func shapes(v any, path string, out map[string]bool) {
 func RunRoundTrip(c *core.Ctx) {
 	r := c.R
 	backend := gen.Pick(r, []string{BBolt, BBoltRaw, BadgerDisk, BadgerMem, BBolt})
+	if c.Case%16 == 5 {
+		backend = gen.Pick(r, []string{BBolt, BadgerShip, BadgerDisk, BadgerShip}) // shipped options: values beyond 1 MB go to the value log
+	}
 	h, err := Open(c, backend, "")
 	if err != nil {
 		c.Violate("open-error", "opening %s failed: %v", backend, err)
@@ -61,9 +65,46 @@ func RunRoundTrip(c *core.Ctx) {
 			docs[i]["_id"] = r.UUIDMaybeUpper()
 		}
 	}
+	// three documents carry values that a later update replaces by "the same" value of another kind
+	docs[0]["num"], docs[1]["num"], docs[2]["num"] = int64(7), float64(3), uint64(12)
+	docs[0]["str8"], docs[1]["str8"] = "ab\xff", "ab\xfe\xfd"
+	docs[2]["nn"] = map[string]any{"k": []any{int64(1), float64(2)}}
 	ids := s.Insert("rt", docs, false)
 	if s.failed || ids == nil {
 		return
+	}
+	// the updated document differs from the stored one in the KIND of a number only (7 as float64, 3 as int64, 12
+	// as int64), or in one byte that is not valid UTF-8: it is a different value and must be what is read back
+	for k, set := range []map[string]any{
+		{"num": float64(7), "str8": "ab\xfe"},
+		{"num": int64(3), "str8": "ab\xfe\xfc"},
+		{"num": int64(12), "nn": map[string]any{"k": []any{float64(1), int64(2)}}},
+	} {
+		q := &model.Query{Coll: "rt", Crit: model.Cmp(model.OpEq, "_id", model.L(ids[k]))}
+		kind := BulkUpdateMap
+		if (c.Case+k)%2 == 0 {
+			kind = BulkUpdateFunc
+		}
+		s.Bulk(kind, q, &Upd{Name: "same_value_other_kind", Set: set})
+	}
+	if c.Case%16 == 5 && !s.failed {
+		// values beyond 1 MiB (badger keeps them in its value log; an encoder may treat them apart) written
+		// together with small documents in one transaction, then rewritten together by one bulk update
+		s.CreateCollection("rtbig", nil)
+		big := []map[string]any{
+			{"_id": r.UUID(), "k": int64(1), "blob": strings.Repeat("B", 1200<<10)},
+			{"_id": r.UUID(), "k": int64(2), "s": "small"},
+			{"_id": r.UUID(), "k": int64(3), "parts": []any{strings.Repeat("p", 750<<10), strings.Repeat("q", 750<<10), strings.Repeat("r", 750<<10)}},
+			{"_id": r.UUID(), "k": int64(4), "s": "small too", "t": time.Unix(1_600_000_000, 7).UTC()},
+		}
+		s.Insert("rtbig", big, false)
+		s.CompareCollection("rtbig", "roundtrip:large-values", "a batch of 1.2 MiB, small, 2.2 MiB, small documents")
+		s.Bulk(BulkUpdateMap, &model.Query{Coll: "rtbig"}, &Upd{Name: "set", Set: map[string]any{"v": int64(9)}})
+		s.CompareCollection("rtbig", "roundtrip:large-values", "bulk update of documents beyond 1 MiB next to small ones")
+		if s.failed {
+			return
+		}
+		c.Cell("rt|large-values|%s", backendClass(backend))
 	}
 	// other write paths
 	for k := 0; k < 6 && !s.failed; k++ {
